@@ -138,6 +138,7 @@ fn streams() -> Vec<(&'static str, &'static str)> {
         ("es", "uno dos"),
         ("es", "un perro vio veinte treinta cuarenta"),
         ("es", "ciento veinte coma cero cinco"),
+        ("es", "se repartieron tres onceavos del total"),
         ("pt", "um dois"),
         ("pt", "um cão viu vinte trinta quarenta"),
         ("it", "uno due"),
@@ -305,6 +306,8 @@ fn cases(mode: &str) -> Vec<Case> {
                 "pre- and post-war houses", "wait-- what", "a-", "-a", "well - said", "l'été, c'est fini !", "un po' d'acqua", "tab\tand\nnewline",
                 "  leading and trailing  ", "dots... and,commas;semi:colons", "\u{a0}nbsp\u{a0}here\u{a0}", "x-ray vision; e-mail", "“quoted” – dash — em",
                 "hello world", "", " ", "--", "'", "(parenthesised) [bracketed] {braced}", "émigré naïve façade", "100% pure 3D", "mother-in-law's",
+                // letters whose lower-case form has a different UTF-8 length (capital sharp s, Kelvin and Angstrom signs, dotted capital I, U+023A)
+                "HAUPTSTRAẞE lang, Berlin.", "300 \u{212a} warm, 5 \u{212b} wide.", "\u{130}stanbul'da güzel bir gün.", "\u{23a}\u{23e} end of line.",
             ];
             for code in LANGS {
                 for t in plain {
@@ -447,6 +450,14 @@ fn cases(mode: &str) -> Vec<Case> {
                                             return Some(format!("spans are not inside the stream, increasing and disjoint: {:?}", occs(&batch)));
                                         }
                                         prev_end = o.end;
+                                        // a Spanish fraction is rendered "1/n" and its value is 1/n
+                                        if let Some(den) = o.text.strip_prefix("1/") {
+                                            let d: f64 = den.parse().unwrap_or(f64::NAN);
+                                            if !((o.value - 1.0 / d).abs() < 1e-12) || o.is_ordinal {
+                                                return Some(format!("occurrence {:?} is not self-consistent (a fraction 1/n has the value 1/n)", occs(&batch)[k]));
+                                            }
+                                            continue;
+                                        }
                                         let digits: String = o.text.chars().take_while(|ch| ch.is_ascii_digit() || *ch == ',' || *ch == '.').collect();
                                         let marker = &o.text[digits.len()..];
                                         let val: f64 = digits.trim_end_matches(['.', ',']).replace(',', ".").parse().unwrap_or(f64::NAN);
